@@ -63,6 +63,12 @@ structure SSnap where
   hold : List (String × Int × Int) := []     -- name, liquid, staked
   xs : List XRec := []
   ks : List (Nat × Int) := []                -- fee paid from stake: first-round dispute id, total recorded as taken
+  korig : List (Nat × List (String × String × Int)) := []   -- … and its per-backer entries (delegator, validator, amount) in stored order
+  vals : List Reporter.Val := []
+  dels : List Reporter.Del := []
+  sels : List Reporter.Sel := []
+  selOrder : List String := []               -- selectors in store order
+  delOrder : List (String × String) := []    -- delegations (delegator, validator) in store order
 
 structure StScan where
   ok : Bool := true
@@ -245,6 +251,18 @@ def scanSettle (out : String) : StScan := Id.run do
     else if rec.startsWith "K " then
       sc := { sc with cur := { sc.cur with ks := (commaList (rec.drop 2).toString).filterMap (fun e => match colon e with
         | id :: tot :: _ => do pure (← parseNat? id, ← parseInt? tot) | _ => none) } }
+      sc := { sc with cur := { sc.cur with korig := (commaList (rec.drop 2).toString).filterMap (fun e => match colon e with
+        | [id, _, os] => do pure (← parseNat? id, (if os.isEmpty then [] else os.splitOn "+").filterMap (fun o => match o.splitOn "." with
+            | [d, v, a] => do pure (d, v, ← parseInt? a) | _ => none))
+        | _ => none) } }
+    else if rec.startsWith "V " then sc := { sc with cur := { sc.cur with vals := parseSVals2 (rec.drop 2).toString } }
+    else if rec.startsWith "D " then sc := { sc with cur := { sc.cur with dels := parseSDels (rec.drop 2).toString } }
+    else if rec.startsWith "S " then sc := { sc with cur := { sc.cur with sels := parseSSels (rec.drop 2).toString } }
+    else if rec.startsWith "O " then
+      match (rec.drop 2).toString.splitOn "/" with
+      | [ss, ds] => sc := { sc with cur := { sc.cur with selOrder := commaList ss,
+                                                         delOrder := (commaList ds).filterMap (fun e => match colon e with | [d, v] => some (d, v) | _ => none) } }
+      | _ => pure ()
     else if rec.startsWith "H " then
       sc := { sc with cur := { sc.cur with hold := ((rec.drop 2).toString.splitOn " ").filterMap (fun e => match e.splitOn "=" with
         | [n, v] => (match v.splitOn "/" with | [l, s] => do pure (n, ← parseInt? l, ← parseInt? s) | _ => none) | _ => none) } }
